@@ -377,7 +377,9 @@ class Analyzer:
                 ne = self._mask_nonempty(idx, guards) and True
                 return f.copy(nonempty=bool(ne), prov=("subset", f.prov[0]), why=f.why + ["boolean-mask selection keeps order and uniqueness"])
         # sorted in place (assume_unique path): concatenate + .sort()
-        if is_call(t, "numpy.concatenate") and self._sorted_in_place(t):
+        if is_call(t, "numpy.concatenate") and self._sorted_in_place(t) and self._sorted_in_place(t, guards) is None:
+            return Facts(why=["a .sort() of the concatenation exists, but under a condition this path does not decide"])
+        if is_call(t, "numpy.concatenate") and self._sorted_in_place(t, guards):
             parts = self._concat_parts(t)
             pf = [self.facts(p, guards, d) for p in parts] if parts else []
             ne = any(p is not None and p.nonempty for p in pf) if pf else self._list_of_nonempty(t, guards, d)
@@ -521,8 +523,29 @@ class Analyzer:
                          ["monotone renumbering: new ids are arange(n) scattered to the kept rows, read at an increasing subsequence of kept rows"])
         return None
 
-    def _sorted_in_place(self, c):
-        return any(ev.kind == "call" and ev["method"] == "sort" and ev["recv"] == c and not ev["args"] for ev in self.I.events)
+    def _sorted_in_place(self, c, guards=None):
+        """Is c.sort() executed on the path described by `guards`?  True / False / None (a sort exists, but under a condition
+        the path says nothing about).  Without guards: is there any sort at all."""
+        evs = [ev for ev in self.I.events if ev.kind == "call" and ev["method"] == "sort" and ev["recv"] == c and not ev["args"]]
+        if guards is None or not evs:
+            return bool(evs)
+        have = set(flat_guards(guards))
+        verdicts = []
+        for ev in evs:
+            v = True
+            for cnd, pol in flat_guards(ev.guards):
+                if (cnd, pol) in have:
+                    continue
+                if (cnd, not pol) in have:
+                    v = False
+                    break
+                v = None
+            verdicts.append(v)
+        if any(v is True for v in verdicts):
+            return True
+        if all(v is False for v in verdicts):
+            return False
+        return None
 
     def _concat_parts(self, c):
         a = c.args[1][0] if c.args[1] else None
@@ -554,7 +577,7 @@ class Analyzer:
 
     def _sort_dedup(self, base, idx, guards, d):
         """C = concatenate(lists); C.sort(); M[:1] = True; M[1:] = C[1:] != C[:-1]; C[M]"""
-        if not (is_call(base, "numpy.concatenate") and self._sorted_in_place(base)):
+        if not (is_call(base, "numpy.concatenate") and self._sorted_in_place(base, guards)):
             return None
         if not (is_call(idx, "numpy.empty") or is_call(idx, "numpy.ones")):
             return None
